@@ -96,7 +96,9 @@ def case_tools(ctx):
     """train_case writes the case model keyed by MurmurHash64A(lowered target, MurmurHash64A(source)); apply_case must look the
     same keys up: the key column equals the model's caseKey, and the trained model re-cases the text it was trained on."""
     rng = ctx.rng
-    vocab = ["Cat", "Paris", "NASA", "iPhone", "Dog", "Rome", "McDonald", "Zebra", "Lyon", "Oslo"]
+    vocab = ["Cat", "Paris", "NASA", "iPhone", "Dog", "Rome", "McDonald", "Zebra", "Lyon", "Oslo",
+             # lowercase has another byte length: I with dot, Kelvin sign, Angstrom sign, capital sharp s, A with stroke
+             "\u0130stanbul", "\u212a", "\u212bngstr\u00f6m", "STRA\u1e9eE", "\u023ater", "\u00c9cole", "\u041c\u043e\u0441\u043a\u0432\u0430"]
     for trial in range(6 if ctx.tier == "quick" else 60):
         n = rng.randrange(2, 7)
         src = ["start"] + [rng.choice(vocab) + str(rng.randrange(3)) for _ in range(n)]
